@@ -134,10 +134,11 @@ def judge_cut(integ: str, entry: str, data: bytes, k: int, S: list, complete_bef
     if entry == "flat-alongside":
         got, exc = collect_alongside(integ, io.BytesIO(data[:k]), other)
         Y = T.norm_events(got)
-    elif entry in ("flat", "flat-preread-header"):
+    elif entry in ("flat", "flat-preread-header", "flat-strict"):
         inp = cut_source(src, data[:k])
         try:
-            got, exc = pj.run_flat_collect(integ, inp, preread=entry == "flat-preread-header")
+            kw = {"logical_type_strict": True} if entry == "flat-strict" else {}
+            got, exc = pj.run_flat_collect(integ, inp, preread=entry == "flat-preread-header", **kw)
         except sources.EOFSpin as spin:
             return {"clause": "spins-at-end-of-input", "source": src,
                     "summary": f"{integ}:{entry} cut at {k} supplied as {src}: {spin} (neither ends nor raises)"}
@@ -189,6 +190,8 @@ def run_stream(ctx, vs, integs, entries):
     if res.violation is not None or S != T.norm_events(vs["events"]):
         ctx.inconc("reference decoder disagrees with the intended events of a generated stream")
         return
+    if "flat-strict" in entries and int(res.options.get("logical_type", 0)) not in (1, 2):
+        entries = [e for e in entries if e != "flat-strict"]      # strict flat parsing refuses other logical types outright
     # events completed by frames wholly inside the first k bytes
     ends = [fr["span"][1] for fr in frames]
     cum = []
@@ -248,6 +251,8 @@ def _one(ctx, rng):
             return
         integs = ["generic"] if mode == "generic" else ["generic", "rdflib"]
         entries = ["flat"] if ctx.tier == "quick" and rng.random() < .7 else ["flat", "grouped"]
+        if rng.random() < .3:
+            entries.append("flat-strict")               # parse_jelly_flat(inp, logical_type_strict=True)
         if rng.random() < .4:
             entries.append("flat-preread-header")       # get_options_and_frames first, then parse_jelly_flat(frames=, options=)
         ctx.observe("streams")
